@@ -165,6 +165,7 @@ class XRef(xpref.Ref):
 
     def to_str(self, v):
         if isinstance(v, RTF):
+            self.interp.stat("fragment-to-string")
             return v.string()
         return xpref.Ref.to_str(self, v)
 
@@ -231,6 +232,7 @@ class Interp:
         self.nodes = xpgen.build_nodes(doc_top)
         self.ref = XRef(self.nodes, self)
         self.flags = {}
+        self.stats = {}          # dynamic coverage counters (what was actually instantiated)
         self.fuel = fuel
         self.templates = []
         self.named = {}
@@ -434,6 +436,9 @@ class Interp:
         return sorted(out)
 
     # ---- execution ----
+    def stat(self, k):
+        self.stats[k] = self.stats.get(k, 0) + 1
+
     def tick(self):
         self.fuel -= 1
         if self.fuel < 0:
@@ -443,6 +448,8 @@ class Interp:
         if not sorts:
             return nodes
         size = len(nodes)
+        if size > 1:
+            self.stat("sorted-more-than-one-node")
         keyed = []
         for i, n in enumerate(nodes):
             ks = []
@@ -476,6 +483,7 @@ class Interp:
             self.tick()
             tm = self.find_template(n, mode)
             cx = self.initial_cx if initial else (n, i + 1, size)
+            self.stat("template-for-node" if tm is not None else "builtin-rule:" + self.nodes[n].kind)
             if tm is None:
                 saved = self.vt_push(["T", self.eid("builtin-" + self.nodes[n].kind), []])
                 try:
@@ -507,7 +515,11 @@ class Interp:
                 first = self.useidx
                 if name in params:
                     env[name] = params[name]
+                    self.stat("param-bound-to-with-param")
+                    if isinstance(params[name], RTF):
+                        self.stat("param-bound-to-fragment")
                 else:
+                    self.stat("param-default")
                     env[name] = self.vdef_value(vdef, cx, env)
                 plist.append((name, self.new_inst(vdef, first)))
             self.run(tm.body, cx, env, b, tm, mode)
@@ -632,6 +644,7 @@ class Interp:
                     for n in v:
                         self.copy_deep(n, b)
                 elif isinstance(v, RTF):
+                    self.stat("fragment-copied")
                     for n in v.nodes:
                         self.copy_rtf_node(n, b)
                 else:
@@ -653,6 +666,7 @@ class Interp:
                 t2 = self.named.get(ins[1])
                 if t2 is None:
                     raise XsltError("no such template")
+                self.stat("call-template" + ("-recursive" if t2 is tm else ""))
                 wp = self.with_params(ins[2], cx, env)
                 saved = self.vt_push(["I", self.last_wp])
                 try:
@@ -665,6 +679,8 @@ class Interp:
                     raise XsltError("for-each select is not a node-set")
                 nodes = self.sorted_nodes(v, ins[2], env)
                 size = len(nodes)
+                if size > 1:
+                    self.stat("for-each-over-several-nodes")
                 for i, n in enumerate(nodes):
                     self.block(ins, ins[3], (n, i + 1, size), dict(env), b, None, mode)
             elif k == "if":
@@ -841,6 +857,7 @@ def run(sheet, doc_top, trace=None, fuel=20000, vtrace=False):
     if vtrace:
         it.enable_vtrace()
     tree = it.transform()
+    it.flags["#stats"] = it.stats
     if vtrace:
         return tree, it.flags, it
     return tree, it.flags
